@@ -67,11 +67,20 @@ func runC30(c *Ctx) {
 				o.n = ch.Range(0, 40, "len")
 			case 3, 4:
 				o.a = bounds[ch.Pick(len(bounds), "bound")]
+				if ch.Bool(15, "extreme-n") {
+					o.a = []int64{math.MinInt64, math.MinInt64 + 1, -(1 << 62), math.MaxInt64 - 1}[ch.Pick(4, "ext-n")]
+				}
 			case 5:
 				o.a = bounds[ch.Pick(len(bounds), "min")] % 100000
 				o.b = bounds[ch.Pick(len(bounds), "max")] % 100000
 				if ch.Bool(30, "neg") {
 					o.a = -o.a
+				}
+				if ch.Bool(40, "extreme-range") {
+					// bounds at both ends of the int range, also more than 2^63 apart (empty and huge intervals)
+					ext := []int64{math.MinInt64, math.MinInt64 + 1, -(1 << 62), -3, 0, 2, 1 << 62, math.MaxInt64 - 1, math.MaxInt64}
+					o.a = ext[ch.Pick(len(ext), "ext-min")]
+					o.b = ext[ch.Pick(len(ext), "ext-max")]
 				}
 			case 6:
 				o.w = weights[ch.Pick(len(weights), "w")]
